@@ -377,38 +377,43 @@ func Tokens(p *Program, sp Speller, ro RenderOpts) []Tok {
 		r.emit("}")
 		r.close("options")
 	}
-	for _, m := range p.Metas {
-		r.line()
-		r.mark("metablock:" + m.Name)
-		r.site = "meta-start"
-		r.emit("MetaData")
-		r.emit(m.Name)
-		r.emit("{")
-		r.ind++
-		for _, e := range m.Entries {
+	emitMetas := func() {
+		for _, m := range p.Metas {
 			r.line()
-			metaID := "meta:" + e.Name
-			if e.Mark != "" {
-				metaID = e.Mark
+			r.mark("metablock:" + m.Name)
+			r.site = "meta-start"
+			r.emit("MetaData")
+			r.emit(m.Name)
+			r.emit("{")
+			r.ind++
+			for _, e := range m.Entries {
+				r.line()
+				metaID := "meta:" + e.Name
+				if e.Mark != "" {
+					metaID = e.Mark
+				}
+				r.mark(metaID)
+				r.site = "metaentry-start"
+				if e.Alias != "" {
+					r.emit(e.Alias)
+				} else {
+					r.typeToks(e.Kind, e.Type, e.N, e.Z, "meta:"+e.Name)
+				}
+				r.emit(e.Name)
+				r.doc(e.Doc, "meta:"+e.Name)
+				r.site = "metaentry-end"
+				r.emit(",")
+				r.close(metaID)
 			}
-			r.mark(metaID)
-			r.site = "metaentry-start"
-			if e.Alias != "" {
-				r.emit(e.Alias)
-			} else {
-				r.typeToks(e.Kind, e.Type, e.N, e.Z, "meta:"+e.Name)
-			}
-			r.emit(e.Name)
-			r.doc(e.Doc, "meta:"+e.Name)
-			r.site = "metaentry-end"
-			r.emit(",")
-			r.close(metaID)
+			r.ind--
+			r.line()
+			r.site = "meta-close"
+			r.emit("}")
+			r.close("metablock:" + m.Name)
 		}
-		r.ind--
-		r.line()
-		r.site = "meta-close"
-		r.emit("}")
-		r.close("metablock:" + m.Name)
+	}
+	if !p.MetaLast {
+		emitMetas()
 	}
 	for _, k := range p.Packets {
 		r.line()
@@ -433,6 +438,9 @@ func Tokens(p *Program, sp Speller, ro RenderOpts) []Tok {
 		r.site = "packet-close"
 		r.emit("}")
 		r.close(pktID)
+	}
+	if p.MetaLast {
+		emitMetas()
 	}
 	return r.toks
 }
